@@ -195,7 +195,7 @@ func replay(args []string) int {
 	}
 	c := core.NewCtx(p, tier, v.Seed, 0, 1, nil)
 	c.Replay = true
-	if p.Oracles[v.Case.Oracle] == nil && v.Case.Oracle != core.AfterOther {
+	if p.Oracles[v.Case.Oracle] == nil && v.Case.Oracle != core.AfterOther && v.Case.Oracle != core.WithTrace {
 		fmt.Fprintf(os.Stderr, "replay: no oracle %q in %s\n", v.Case.Oracle, p.ID)
 		return 2
 	}
